@@ -1196,6 +1196,18 @@ void mmd_export_token_opendocument(DString * out, const char * source, token * t
 			print_const("[#");
 			break;
 
+		case BRACKET_FOOTNOTE_LEFT:
+			print_const("[^");
+			break;
+
+		case BRACKET_GLOSSARY_LEFT:
+			print_const("[?");
+			break;
+
+		case BRACKET_IMAGE_LEFT:
+			print_const("![");
+			break;
+
 		case BRACKET_LEFT:
 			print_const("[");
 			break;
